@@ -295,6 +295,12 @@ class CancelScope(AbstractCancelScope):
                 delayed_task_cancel.handle.cancel()
                 delayed_task_cancel = None
 
+            # Forget the cancellation requests of this scope which did not come back as a CancelledError
+            # (they have been absorbed by a shielded section).
+            while self.__host_task_cancel_calls and host_task.cancelling() > self.__host_task_cancelling:
+                self.__host_task_cancel_calls -= 1
+                host_task.uncancel()
+
         self._check_pending_cancellation(host_task)
 
         return self.__cancelled_caught
